@@ -204,6 +204,10 @@ def plan(tier: str) -> dict[str, Any]:
                 b = {"addr": a_addr + b_off, "len": b_len, "fill": 12}
                 for hist in ([a, b, dict(a)], [a, b, dict(a), dict(b)], [a, dict(a)], [a, b, {"addr": 0x20, "len": 2, "fill": 13}, dict(a)]):
                     fixed.append({"header": header, "ops": [dict(x) for x in hist], "stream": stream, "bufsize": 64, "short_writes": None, "fault": None, "meta": {"family": "aba"}})
+    # the interpreter's own flags are environment: a sample of the two families above in fresh interpreters
+    # started with -O (asserts stripped)
+    step = 24 if tier == "quick" else 6
+    fixed += [dict(c, pyflags=["-O"], meta=dict(c["meta"], interpreter="-O")) for c in fixed[::step]]
     return {"fixed": fixed, "seeded": 6000 if tier == "quick" else 0, "chunk": 40, "wall_cap_s": 200, "minimise_s": 25}
 
 
@@ -237,7 +241,13 @@ def _child(root: str, case: dict[str, Any]) -> dict[str, Any]:
         try:
             if env is not None:
                 fobj = open(os.path.join(root, "out.ips"), "wb")  # resolves to the simulated open
-            writer = IPSWriter(fobj, header) if header else IPSWriter(fobj)
+            # both documented ways of asking for the copier header: positionally (what a816's own front end
+            # does) and by keyword; without it: omitted, or an explicit False
+            style = (len(case["ops"]) + (case["ops"][0]["addr"] if case["ops"] else 0)) % 2
+            if header:
+                writer = IPSWriter(fobj, True) if style == 0 else IPSWriter(fobj, copier_header=True)
+            else:
+                writer = IPSWriter(fobj) if style == 0 else IPSWriter(fobj, copier_header=False)
             calls: list[tuple[str, Any]] = [("begin", None)] + [("write_block", i) for i in range(len(blocks))] + [("end", None)]
             done_blocks = 0
             # a second, unrelated writer on its own stream, driven in between the calls of the writer
@@ -438,7 +448,11 @@ def _child(root: str, case: dict[str, Any]) -> dict[str, Any]:
 def run_case(case: dict[str, Any], stats: Stats) -> list[Violation]:
     root = simenv.new_sandbox()
     try:
-        res = core.run_child(_child, root, case)
+        if case.get("pyflags"):
+            res = core.run_fresh_fn("sim.props.c11", "_child", (root, case), "0", list(case["pyflags"]))
+            stats.bump("probe:history_in_fresh_interpreter_with_flags:" + "".join(case["pyflags"]))
+        else:
+            res = core.run_child(_child, root, case)
     finally:
         simenv.drop_sandbox(root)
     header = bool(case["header"])
